@@ -159,11 +159,16 @@ func IdentIdx(r int) []sym.Poly {
 // NewTensor allocates a CPUTensor object with the given dims and abstract content.
 func (w *World) NewTensor(name string, dims []sym.Poly, elem sym.Expr, rng Ival, gctx interp.Value) interp.PtrV {
 	p := w.M.NewStruct(w.A.CPUTensor, "tensor:"+name)
-	vals := make([]interp.Value, len(dims))
+	// the dims slice gets spare capacity: nothing may rely on cap == len (an in-place append/insert on an
+	// operand's dims would otherwise go unnoticed)
+	vals := make([]interp.Value, len(dims)+2)
 	for i, d := range dims {
 		vals[i] = interp.IntV{P: d}
 	}
-	interp.Store(p.C.Fields[w.A.FDims], w.M.SliceOf(w.A.IntT, vals, "dims:"+name))
+	vals[len(dims)], vals[len(dims)+1] = interp.IntV{P: sym.PInt(-7)}, interp.IntV{P: sym.PInt(-7)}
+	ds := w.M.SliceOf(w.A.IntT, vals, "dims:"+name)
+	ds.Len = len(dims)
+	interp.Store(p.C.Fields[w.A.FDims], ds)
 	interp.Store(p.C.Fields[w.A.FData], interp.OpaqueV{Why: "tensor data of " + name})
 	if gctx == nil {
 		gctx = interp.NilV{}
